@@ -110,8 +110,29 @@ func buildC12On(tier string, proto string) sim.Scenario {
 		}
 		var script []c12Req
 		// bias: half of the scripts start with a sensible prefix so that deep states are reached
-		pre := tp.Choose(4)
+		pre := tp.Choose(6)
 		switch pre {
+		case 4: // a legal chain with a refused request of the same kind in the middle: the refusal must change nothing
+			w.Probe("c12.refusal-inside-legal-chain")
+			script = append(script, c12Req{method: "DESCRIBE", path: c12Live})
+			if proto == "" && tp.Bool() {
+				script = append(script, c12Req{method: "DESCRIBE", path: "/nope"})
+			} else {
+				script = append(script, c12Req{method: "SETUP", path: c12Live, track: "streamid=0", trans: transports[4+tp.Choose(3)].s, tkind: "bad"})
+			}
+			script = append(script, c12Req{method: "SETUP", path: c12Live, track: "streamid=0", trans: fmt.Sprintf(transports[0].s, 0, 1), tkind: "tcp"}, c12Req{method: "PLAY", path: c12Live})
+		case 5:
+			if proto == "wsp" {
+				break
+			}
+			w.Probe("c12.refusal-inside-legal-chain")
+			script = append(script, c12Req{method: "ANNOUNCE", path: c12Push, body: sdpH264AAC, ctype: "application/sdp"})
+			if tp.Bool() {
+				script = append(script, c12Req{method: "ANNOUNCE", path: c12Push, body: "this is not sdp\r\n", ctype: "application/sdp", tag: "badsdp"})
+			} else {
+				script = append(script, c12Req{method: "ANNOUNCE", path: c12Push, body: sdpH264AAC, ctype: "text/plain", tag: "badtype"})
+			}
+			script = append(script, c12Req{method: "SETUP", path: c12Push, track: "streamid=0", trans: fmt.Sprintf(transports[1].s, 0, 1), tkind: "tcprec"}, c12Req{method: "RECORD", path: c12Push})
 		case 1:
 			script = append(script, c12Req{method: "DESCRIBE", path: c12Live}, c12Req{method: "SETUP", path: c12Live, track: "streamid=0", trans: fmt.Sprintf(transports[0].s, 0, 1), tkind: "tcp"})
 		case 2:
